@@ -318,14 +318,14 @@ func ReportSched(r *ev.Run, id string, res sched.Result, descr map[string]interf
 	r.EvalN("sched/"+res.Scenario, res.Schedules)
 	r.Add("schedules", res.Schedules)
 	r.Add("schedule_points", res.Points)
-	r.AddGraph(0, res.Points, res.Schedules)
+	r.AddGraph(int64(len(res.Outcomes)), res.Points, res.Schedules) // states = distinct end states (outcomes)
 	var outs []string
 	for o := range res.Outcomes {
 		outs = append(outs, o)
 		r.Eval("outcome/" + res.Scenario + "/" + o)
 	}
 	sort.Strings(outs)
-	d := map[string]interface{}{"scenario": res.Scenario, "schedules": res.Schedules, "max_choice_points": res.MaxPoints, "preemption_bound_completed": res.BoundCompleted, "distinct_outcomes": len(outs), "serial_outcomes": len(res.Serial), "sample_schedule": res.Sample}
+	d := map[string]interface{}{"scenario": res.Scenario, "schedules": res.Schedules, "max_choice_points": res.MaxPoints, "preemption_bound_completed": res.BoundCompleted, "distinct_outcomes": len(outs), "serial_outcomes": len(res.Serial), "sample_schedule_rle": rle(res.Sample)}
 	for k, v := range descr {
 		d[k] = v
 	}
@@ -339,4 +339,22 @@ func ReportSched(r *ev.Run, id string, res sched.Result, descr map[string]interf
 	for _, f := range res.Found {
 		r.Violate(id+"/sched/"+res.Scenario+"/"+f.Sig, fmt.Sprintf("scenario %s, schedule %v: %s", res.Scenario, f.Choices, f.What), map[string]interface{}{"scenario": res.Scenario, "schedule": f.Choices, "outcome": f.Outcome})
 	}
+}
+
+// rle renders a choice list compactly: "1 0x40 2 0x13".
+func rle(c []int) string {
+	var sb strings.Builder
+	for i := 0; i < len(c); {
+		j := i
+		for j < len(c) && c[j] == c[i] {
+			j++
+		}
+		if j-i > 1 {
+			fmt.Fprintf(&sb, "%dx%d ", c[i], j-i)
+		} else {
+			fmt.Fprintf(&sb, "%d ", c[i])
+		}
+		i = j
+	}
+	return strings.TrimSpace(sb.String())
 }
